@@ -1750,10 +1750,23 @@ func (s *scanner) preprocessInjectedFiles() {
 	// case any of these plugins block.
 	injectResolveResults := make([]*resolver.ResolveResult, len(s.options.InjectPaths))
 	injectAbsResolveDir := s.fs.Cwd()
+
+	// Each injected path logs into its own deferred log. These are merged into
+	// the shared log in order below. Logging to the shared log directly from
+	// these goroutines would make the order of messages without a location
+	// (which all compare equal when the log is sorted) depend on goroutine
+	// scheduling, which would make the build non-deterministic.
+	injectLogs := make([]logger.Log, len(s.options.InjectPaths))
+	for i := range injectLogs {
+		injectLogs[i] = logger.NewDeferLog(logger.DeferLogAll, s.log.Overrides)
+		injectLogs[i].Level = s.log.Level
+	}
+
 	injectResolveWaitGroup := sync.WaitGroup{}
 	injectResolveWaitGroup.Add(len(s.options.InjectPaths))
 	for i, importPath := range s.options.InjectPaths {
 		go func(i int, importPath string) {
+			log := injectLogs[i]
 			var importer logger.Path
 
 			// Add a leading "./" if it's missing, similar to entry points
@@ -1770,15 +1783,15 @@ func (s *scanner) preprocessInjectedFiles() {
 						importPath = "./" + importPath
 					}
 				}
-			} else if s.log.Level <= logger.LevelDebug && originalError != nil {
-				s.log.AddID(logger.MsgID_None, logger.Debug, nil, logger.Range{}, fmt.Sprintf("Failed to read directory %q: %s", absPath, originalError.Error()))
+			} else if log.Level <= logger.LevelDebug && originalError != nil {
+				log.AddID(logger.MsgID_None, logger.Debug, nil, logger.Range{}, fmt.Sprintf("Failed to read directory %q: %s", absPath, originalError.Error()))
 			}
 
 			// Run the resolver and log an error if the path couldn't be resolved
 			resolveResult, didLogError, debug := RunOnResolvePlugins(
 				s.options.Plugins,
 				s.res,
-				s.log,
+				log,
 				s.fs,
 				&s.caches.FSCache,
 				nil,
@@ -1793,17 +1806,24 @@ func (s *scanner) preprocessInjectedFiles() {
 			)
 			if resolveResult != nil {
 				if resolveResult.PathPair.IsExternal {
-					s.log.AddError(nil, logger.Range{}, fmt.Sprintf("The injected path %q cannot be marked as external", importPath))
+					log.AddError(nil, logger.Range{}, fmt.Sprintf("The injected path %q cannot be marked as external", importPath))
 				} else {
 					injectResolveResults[i] = resolveResult
 				}
 			} else if !didLogError {
-				debug.LogErrorMsg(s.log, nil, logger.Range{}, fmt.Sprintf("Could not resolve %q", importPath), "", nil)
+				debug.LogErrorMsg(log, nil, logger.Range{}, fmt.Sprintf("Could not resolve %q", importPath), "", nil)
 			}
 			injectResolveWaitGroup.Done()
 		}(i, importPath)
 	}
 	injectResolveWaitGroup.Wait()
+
+	// Merge the per-path logs in injected path order for determinism
+	for _, log := range injectLogs {
+		for _, msg := range log.Done() {
+			s.log.AddMsg(msg)
+		}
+	}
 
 	if s.options.CancelFlag.DidCancel() {
 		return
